@@ -137,6 +137,14 @@ func (p *Proc) apiCall(verb string, res Resource, ns, name string, effect func(a
 	if fault == "lostack" && err == nil {
 		s.Faults["api.lostack"]++
 		s.Tracef("  FAULT lostack %s by %s", desc, t.id)
+		// the effect was applied; what the caller sees varies (by call ordinal, so that
+		// it replays): a gateway timeout, a 500, or a broken connection without any API status
+		switch call.N % 3 {
+		case 1:
+			return nil, apierrors.NewInternalError(errors.New("furisim: injected server error after the write was applied"))
+		case 2:
+			return nil, errors.New("furisim: injected connection reset by peer after the write was applied")
+		}
 		return nil, apierrors.NewTimeoutError("furisim: injected timeout after the write was applied", 1)
 	}
 	if verb == "get" && (err == nil || apierrors.IsNotFound(err)) {
